@@ -7,7 +7,7 @@
    Task.load ([partitions_tile]). *)
 From Coq Require Import List NArith Bool.
 From Shovel Require Import Model.TaskTypes Model.TaskDb Model.Task Model.TaskNode Model.TaskSys
-  Model.TaskSpec Model.TaskWitness Proofs.TaskArithP Proofs.TaskLegacyP Proofs.C01P.
+  Model.TaskSpec Model.TaskWitness Proofs.TaskArithP Proofs.TaskLegacyP Proofs.C01P Proofs.TaskLiveP.
 Import ListNotations.
 Open Scope N_scope.
 
@@ -67,6 +67,48 @@ Theorem growth_table_is_projection : forall c canon, height canon < nmax -> fora
 Proof. exact growth_projection. Qed.
 Print Assumptions growth_table_is_projection.
 
+(* LIVENESS, fault-free steps against an honest node serving [ch] (integration
+   without filter references; row keys distinct inside a block).  [at_pos c g
+   ln]: ln is the recorded position, or start-1 when nothing is recorded and a
+   start is configured.  [hstepf c ch d]: the database after one such step. *)
+
+(* growth_progress: if the position is below the target min(head, stop) the
+   step converges and appends exactly the next delta = min(target-ln, batch)
+   >= 1 blocks -- for every batch x concurrency *)
+Theorem growth_progress : forall c ch,
+  cfg_ok c -> wf_chain ch -> height ch < nmax -> t_deps c = [] ->
+  (forall b, In b ch -> NoDup (map fst (b_rows b))) ->
+  forall g d ln x,
+  pv c d = render c g -> wf_ghost c g -> Forall (on_chain (t_hashes c) ch) (concat g) ->
+  blk_at ch ln = Some x -> at_pos c g ln -> ln < clip c (top ch) ->
+  let x1 := exec_honest 400 (t_uniq c) (t_hashes c) ch (converge c) d None in
+  let delta := delta_of c ln (clip c (top ch)) in
+  r_out x1 = Fin OConverged /\ r_cs x1 = None /\ 1 <= delta
+  /\ pv c (r_db x1) = render c (g ++ [view (t_hashes c) (segment ch (ln + 1) delta)])
+  /\ outside c (r_db x1) = outside c d
+  /\ wf_ghost c (g ++ [view (t_hashes c) (segment ch (ln + 1) delta)])
+  /\ Forall (on_chain (t_hashes c) ch) (concat (g ++ [view (t_hashes c) (segment ch (ln + 1) delta)]))
+  /\ exists h, gpos (g ++ [view (t_hashes c) (segment ch (ln + 1) delta)]) = Some (ln + delta, h).
+Proof. exact progress_lemma. Qed.
+Print Assumptions growth_progress.
+
+(* growth_reaches_head: at most target-ln fault-free steps bring the recorded
+   position to the target, with all indexed blocks on the chain (hence, by
+   growth_table_is_projection, the table = projection up to the target) *)
+Theorem growth_reaches_head : forall c ch,
+  cfg_ok c -> wf_chain ch -> height ch < nmax -> t_deps c = [] ->
+  (forall b, In b ch -> NoDup (map fst (b_rows b))) ->
+  forall g d ln x,
+  pv c d = render c g -> wf_ghost c g -> Forall (on_chain (t_hashes c) ch) (concat g) ->
+  blk_at ch ln = Some x -> at_pos c g ln -> ln < clip c (height ch - 1) ->
+  exists n g', (1 <= n <= N.to_nat (clip c (height ch - 1) - ln))%nat
+    /\ pv c (iter (hstepf c ch) n d) = render c g' /\ wf_ghost c g'
+    /\ Forall (on_chain (t_hashes c) ch) (concat g')
+    /\ (exists h, gpos g' = Some (clip c (height ch - 1), h))
+    /\ outside c (iter (hstepf c ch) n d) = outside c d.
+Proof. exact reach_lemma. Qed.
+Print Assumptions growth_reaches_head.
+
 (* The pinned arithmetic part = batch/conc: batch 1 x concurrency 4 yields no
    partition and the step panics on blocks[0]. *)
 Theorem legacy_batch_lt_conc_refuted :
@@ -77,8 +119,8 @@ Print Assumptions legacy_batch_lt_conc_refuted.
 Theorem legacy_partitions_refuted :
   partitions legacy (Task 1 1 2 3 1 0 1 4 [] true true) 1 1 = []
   /\ partitions repaired (Task 1 1 2 3 1 0 1 4 [] true true) 1 1 = [(1,1)].
-Proof. split; [exact legacy_partitions_empty|exact (proj2 repaired_partitions_example)]. Qed.
+Proof. exact legacy_partitions_both. Qed.
 Print Assumptions legacy_partitions_refuted.
 
 Example c01_cfg_ok : cfg_ok (wcfg 1 4) /\ cfg_ok (wcfg 10 3).
-Proof. split; apply cfg_okb_sound; vm_compute; reflexivity. Qed.
+Proof. exact (conj (proj1 cfg_ok_examples) (proj1 (proj2 cfg_ok_examples))). Qed.
